@@ -67,6 +67,13 @@ class RmsNormFusion(pattern.RewriteRuleClassBase):
             return check_result.fail("Input is not a float type.", x)
         if scale.dtype not in float_types:
             return check_result.fail("Scale is not a float type.", scale)
+        if (
+            x.shape is not None
+            and scale.shape is not None
+            and scale.shape.rank() > x.shape.rank()
+        ):
+            # Mul would broadcast the result to the scale's rank; the fused op cannot.
+            return check_result.fail("Scale has a higher rank than the input.", scale)
         self._stash_dtype = compute_dtype.as_int() if compute_dtype is not None else x.dtype
         if self._stash_dtype not in fp_float_types:
             return check_result.fail("Normalization precision is not a float or double type.")
